@@ -153,9 +153,33 @@ def scripted():
     return out
 
 
+def dtype_cases(rng, count):
+    """Data types carried between workspaces (oracle only; data types are not in the Coq model): steps over two workspaces
+    with one or two objects each: plain add_data (own new type), add_data with the DataType of an existing data set of
+    either workspace as entity_type (DataType.validate_data_type -> EntityType.copy), and object copies (find_or_create)."""
+    cases = [{"dtype": {"objs": [0, 1], "steps": [{"t": "data", "o": 0}, {"t": "typed", "o": 1, "d": 0}, {"t": "typed", "o": 1, "d": 0},
+                                                   {"t": "copy", "o": 0, "ws": 1}]}},
+             {"dtype": {"objs": [0, 0], "steps": [{"t": "data", "o": 0}, {"t": "typed", "o": 1, "d": 0}, {"t": "copy", "o": 0, "ws": 0}]}}]
+    for _ in range(count):
+        objs = [rng.below(2) for _ in range(rng.range(2, 3))]
+        steps, ndata = [], 0
+        for _ in range(rng.range(2, 6)):
+            r = rng.below(100)
+            if ndata == 0 or r < 35:
+                steps.append({"t": "data", "o": rng.below(len(objs))})
+                ndata += 1
+            elif r < 80:
+                steps.append({"t": "typed", "o": rng.below(len(objs)), "d": rng.below(ndata)})
+                ndata += 1
+            else:
+                steps.append({"t": "copy", "o": rng.below(len(objs)), "ws": rng.below(2)})
+        cases.append({"dtype": {"objs": objs, "steps": steps}})
+    return cases
+
+
 def generate(rng, tier):
     n = 220 if tier == "quick" else 5000
-    return scripted() + [random_history(rng) for _ in range(n)]
+    return scripted() + [random_history(rng) for _ in range(n)] + dtype_cases(rng, 18 if tier == "quick" else 400)
 
 
 def random_history(rng):
@@ -422,7 +446,32 @@ def _observe(rec, wss, out):
             ser += [len(rows) // 3] + rows
     for ws in wss:
         ser += _flat(ws.geoh5, rep)
+    for ws in wss:
+        ser += _links(ws.geoh5, rep)
     return ser
+
+
+def _links(h5, rep):
+    """Child links of the nodes the flat containers reach, keyed like Registry.obs_links."""
+    import uuid
+
+    import h5py
+
+    base = h5[list(h5)[0]]
+    keys = []
+    for pk, cont in enumerate(("Groups", "Objects", "Data")):
+        if cont not in base:
+            continue
+        for pu, node in base[cont].items():
+            for ck, sub in enumerate(("Groups", "Objects", "Data")):
+                if sub in node and isinstance(node[sub], h5py.Group):
+                    for cu in node[sub].keys():
+                        a, b = rep.get(uuid.UUID(pu.strip("{}")), 995), rep.get(uuid.UUID(cu.strip("{}")), 995)
+                        keys.append((((pk * 1000 + a) * 10 + ck) * 1000 + b, [pk, a, ck, b]))
+    out = [len(keys)]
+    for _, row in sorted(keys):
+        out += row
+    return out
 
 
 def _stored_groups(h5, rep):
@@ -450,7 +499,131 @@ def _flat(h5, rep):
     return ser
 
 
+def _drive_dtype(spec, work):
+    import os
+
+    import numpy as np
+    from geoh5py import Workspace
+    from geoh5py.data import Data
+    from geoh5py.objects import Points
+
+    paths = [os.path.join(work, f"c06_t{i}.geoh5") for i in (0, 1)]
+    for p in paths:
+        if os.path.exists(p):
+            os.remove(p)
+    wss = [Workspace.create(p) for p in paths]
+    res = {"steps": []}
+    try:
+        objs = [Points.create(wss[w], vertices=np.zeros((2, 3)), name=f"o{k}") for k, w in enumerate(spec["objs"])]
+        datas = []  # (data, workspace index)
+
+        def live_types(i):
+            return sorted(str(t.uid) for t in wss[i].types if type(t).__name__ == "DataType")
+
+        def widx(w):
+            return 0 if w is wss[0] else 1
+
+        for st in spec["steps"]:
+            before = [live_types(0), live_types(1)]
+            rec = {"before": before}
+            try:
+                if st["t"] == "data":
+                    d = objs[st["o"]].add_data({f"d{len(datas)}": {"values": np.array([0.0, 1.0])}})
+                    datas.append(d)
+                    rec.update({"new": [[widx(d.workspace), str(d.entity_type.uid), widx(d.entity_type.workspace)]]})
+                elif st["t"] == "typed":
+                    src = datas[st["d"]]
+                    d = objs[st["o"]].add_data({f"d{len(datas)}": {"values": np.array([0.0, 1.0]), "entity_type": src.entity_type}})
+                    datas.append(d)
+                    rec.update({"src": [widx(src.entity_type.workspace), str(src.entity_type.uid)],
+                                "same_instance": d.entity_type is src.entity_type,
+                                "new": [[widx(d.workspace), str(d.entity_type.uid), widx(d.entity_type.workspace)]]})
+                else:
+                    o = objs[st["o"]]
+                    cp = o.copy(parent=wss[st["ws"]])
+                    pairs = []
+                    for a, b in zip([c for c in o.children if isinstance(c, Data)], [c for c in cp.children if isinstance(c, Data)]):
+                        pairs.append([widx(a.workspace), str(a.entity_type.uid), widx(b.workspace), str(b.entity_type.uid), widx(b.entity_type.workspace)])
+                    rec.update({"pairs": pairs})
+                rec["out"] = "ok"
+            except Exception as e:  # noqa: BLE001
+                rec["out"] = f"{type(e).__name__}: {str(e)[:80]}"
+            rec["after"] = [live_types(0), live_types(1)]
+            res["steps"].append(rec)
+        mem = [[widx(d.workspace), str(d.uid), str(d.entity_type.uid)] for d in datas]
+        for w in wss:
+            w.close()
+        on_file = []
+        for i, p in enumerate(paths):
+            w2 = Workspace(p)
+            for _, uid, _t in [m for m in mem if m[0] == i]:
+                import uuid
+
+                e = w2.get_entity(uuid.UUID(uid))[0]
+                on_file.append([i, uid, None if e is None else str(e.entity_type.uid)])
+            w2.close()
+        res["mem"] = mem
+        res["file"] = on_file
+    finally:
+        for w in wss:
+            try:
+                w.close()
+            except Exception:  # noqa: BLE001
+                pass
+        for p in paths:
+            if os.path.exists(p):
+                os.remove(p)
+    return res
+
+
+def _oracle_dtype(spec, obs):
+    fails, seen = [], set()
+
+    def add(key, what):
+        if key not in seen:
+            seen.add(key)
+            fails.append({"key": key, "what": what[:400]})
+
+    if "steps" not in obs:
+        return [{"key": "driver-incomplete", "what": json.dumps(obs)[:300]}]
+    for i, (st, r) in enumerate(zip(spec["steps"], obs["steps"])):
+        if r["out"] != "ok":
+            add("type-op-raised", f"step {i} {st}: {r['out']}")
+            continue
+        for ws in (0, 1):
+            if len(set(r["after"][ws])) != len(r["after"][ws]):
+                add("types-share-identifier", f"step {i}: two live data types of workspace {ws} share an identifier")
+        if st["t"] == "typed":
+            sws, suid = r["src"]
+            (dws, tuid_, tws), = r["new"]
+            if tws != dws:
+                add("type-in-wrong-workspace", f"step {i}: the new data's type belongs to workspace {tws}, the data to {dws}")
+            if sws == dws:
+                if not r["same_instance"]:
+                    add("same-ws-type-not-shared", f"step {i}: a type of the same workspace was not used as it is")
+            else:
+                free = suid not in r["before"][dws]
+                if free and tuid_ != suid:
+                    add("type-identifier-dropped-although-free", f"step {i} {st}: type identifier {suid[:8]} was free in workspace {dws} but the new type got {tuid_[:8]}")
+                if not free and tuid_ == suid and r["after"][dws].count(suid) > 1:
+                    add("types-share-identifier", f"step {i}: identifier in use was reused")
+        if st["t"] == "copy":
+            for aws, auid, bws, buid, tws in r["pairs"]:
+                if tws != bws:
+                    add("type-in-wrong-workspace", f"step {i}: copied data's type belongs to workspace {tws}")
+                free = auid not in r["before"][bws]
+                if aws != bws and free and buid != auid:
+                    add("type-identifier-dropped-although-free", f"step {i} {st}: object copy did not keep the data type identifier {auid[:8]}")
+    mem = {(m[0], m[1]): m[2] for m in obs.get("mem", [])}
+    for ws, uid, t in obs.get("file", []):
+        if t != mem.get((ws, uid)):
+            add("type-identifier-differs-on-file", f"data {uid[:8]} of workspace {ws}: type {t} on file, {mem.get((ws, uid))} in memory")
+    return fails
+
+
 def drive_one(case, work):
+    if "dtype" in case:
+        return _drive_dtype(case["dtype"], work)
     import gc
     import os
 
@@ -675,6 +848,8 @@ def _hist_term(case):
 
 
 def case_term(case, obs):
+    if "dtype" in case:
+        return None  # data types: oracle only
     if "per_op" not in obs or "final" not in obs:
         return "false"
     if any(not 0 <= x < 4000 for x in obs["final"]):
@@ -684,6 +859,8 @@ def case_term(case, obs):
 
 
 def model_term(case):
+    if "dtype" in case:
+        return None
     return "(let (l, w) := run_obs cur init %s in (l, final_trace w))" % _hist_term(case)
 
 
@@ -719,12 +896,17 @@ def _decode(ser):
         for kind in ("group", "object", "data"):
             d[kind] = [nx() for _ in range(nx())]
         flats.append(d)
-    return {"out": out, "insts": insts, "regs": regs, "flat": flats}
+    links = []
+    for ws in (0, 1):
+        links.append([[nx(), nx(), nx(), nx()] for _ in range(nx())])
+    return {"out": out, "insts": insts, "regs": regs, "flat": flats, "links": links}
 
 
 def oracle(case, obs):
     if "crash" in obs:
         return [{"key": "driver-crash", "what": obs["crash"][:300]}]
+    if "dtype" in case:
+        return _oracle_dtype(case["dtype"], obs)
     if "per_op" not in obs:
         return [{"key": "driver-incomplete", "what": json.dumps(obs)[:300]}]
     fails, seen = [], set()
@@ -770,9 +952,11 @@ def oracle(case, obs):
         # ---- a refused request has no side effects
         if o["out"] == 1 and prev is not None:
             def strip(x, upto):
-                return {"insts": [(r["alive"], r["ch"], r["pgs"], r["props"]) for r in x["insts"][:upto]], "flat": x["flat"]}
+                return {"insts": [(r["alive"], r["ch"], r["pgs"], r["props"]) for r in x["insts"][:upto]], "flat": x["flat"], "links": x["links"]}
             if strip(o, n0) != strip(prev, n0):
                 stuck = [k for k in new if any(k in r["ch"] for r in insts)]
+                if not stuck and o["links"] != prev["links"]:
+                    add("refused-creation-changed-file-links", f"op {i} {op}: refused, yet the child links stored in the file changed")
                 add("refused-creation-left-in-parent" if stuck else "refused-changed-state",
                     f"op {i} {op}: refused, yet instances {stuck} stay in a parent's children / state changed")
         # ---- a refused request leaves the file alone (PropertyGroups entries under the object nodes)
@@ -846,12 +1030,17 @@ def oracle(case, obs):
 
 
 def nontrivial(case, obs):
+    if "dtype" in case:
+        return True
     return any(op["op"] == "copy" or op.get("u") for op in case["ops"])
 
 
 def histogram(cases, obs):
     h = {"ops": {}, "length": {}, "forced_collisions": 0, "outcomes": {}, "cross_ws_copies": 0}
+    h["data_type_cases"] = sum(1 for c in cases if "dtype" in c)
     for c, o in zip(cases, obs):
+        if "dtype" in c:
+            continue
         L = str(len(c["ops"]) // 5 * 5)
         h["length"][L] = h["length"].get(L, 0) + 1
         for op in c["ops"]:
